@@ -687,14 +687,18 @@ func zvC18Enumerate(thorough bool, visit func(c zvC18Case) bool) {
 	}
 	hiA, hiAS, bulkL := 32, 8, 24
 	if thorough {
-		hiA, hiAS, bulkL = 130, 60, 80
+		hiA, hiAS, bulkL = 80, 32, 40
 	}
 	for fam := 0; fam < 3; fam++ {
 		for _, ap := range []bool{false, true} {
 			for _, prof := range profiles {
 				for _, tick := range []bool{false, true} {
 					base := zvC18Case{Fam: fam, AP: ap, Profile: prof, Tick: tick}
-					plens := zvC18PLens(fam == 2, thorough)
+					plens := zvC18PLens(fam == 2, false)       // one prefix length per NLRI byte size
+					bulkLens := zvC18PLens(fam == 2, thorough) // thorough: also lengths that are not a multiple of 8
+					if fam == 2 && thorough {
+						bulkLens = []int{16, 19, 32, 48, 61, 64, 96, 125, 128}
+					}
 					// regime "boundary": little room, every count up to 2.2 x capacity, room swept byte by byte
 					for pass := 0; pass < 2; pass++ {
 						hi := hiA
@@ -739,11 +743,11 @@ func zvC18Enumerate(thorough bool, visit func(c zvC18Case) bool) {
 						tailLens = []int{0, 8, 64, 128}
 					}
 					if fam == 2 && thorough {
-						tailLens = []int{0, 8, 16, 32, 48, 64, 96, 120, 128}
+						tailLens = []int{0, 8, 32, 64, 128}
 					}
 					loT, hiT := 37, 37
 					if thorough {
-						loT, hiT = 30, 44
+						loT, hiT = 34, 40
 					}
 					if !(tick && !thorough) {
 						for _, at := range zvC18AttrSweep(base, loT, hiT, false) {
@@ -774,7 +778,7 @@ func zvC18Enumerate(thorough bool, visit func(c zvC18Case) bool) {
 						c := base
 						c.ASNs, c.Unk = 2, L
 						room := c.room()
-						for _, pl := range plens {
+						for _, pl := range bulkLens {
 							if pl < 16 {
 								continue // not enough distinct prefixes to fill a message
 							}
@@ -815,8 +819,8 @@ func TestVerifC18(t *testing.T) {
 	defer r.Finish()
 	r.Rule("sessions {IPv4 classic, IPv4 multiprotocol, IPv6 multiprotocol} x add-path TX {off,on} x attribute profile {lean iBGP, rich iBGP RR client (MED, ATOMIC_AGGREGATE, AGGREGATOR, 70 communities, 25 large communities, " +
 		"ORIGINATOR_ID, 65 cluster ids, 2 unknown attributes); thorough: lean eBGP with prepend} x flush {End-of-RIB, aggregation ticker} x three regimes: boundary = attribute size (unknown attribute length byte by byte; AS path length ASN by ASN) " +
-		"chosen so that R = 1..32 (thorough 130) bytes remain for NLRI, x every NLRI size class x every count 1..2.2R/size+2; tails = bulk filling a message up to 0..2 prefixes x every size combination of three more prefixes; " +
-		"bulk = small attributes (unknown attribute 0..24/80 bytes, byte by byte) x size classes >= /16 x counts around 1x and 2x capacity and 2.2x capacity; sets = two sets of 1..3 prefixes queued interleaved whose paths differ in exactly one of {unknown attribute value, additional unknown attribute, AGGREGATOR, ATOMIC_AGGREGATE, MED, communities, AS path}, each prefix must carry the attributes of its own set. Oracle on the captured stream only. Non-trivial = cases needing more than one message or able to fill one exactly")
+		"chosen so that R = 1..32 (thorough 80) bytes remain for NLRI, x every NLRI size class x every count 1..2.2R/size+2; tails = bulk filling a message up to 0..2 prefixes x every size combination of three more prefixes; " +
+		"bulk = small attributes (unknown attribute absent or 0..24 (thorough 40) bytes, byte by byte; thorough also prefix lengths that are not a multiple of 8) x size classes >= /16 x counts around 1x and 2x capacity and 2.2x capacity; sets = two sets of 1..3 prefixes queued interleaved whose paths differ in exactly one of {unknown attribute value, additional unknown attribute, AGGREGATOR, ATOMIC_AGGREGATE, MED, communities, AS path}, each prefix must carry the attributes of its own set. Oracle on the captured stream only. Non-trivial = cases needing more than one message or able to fill one exactly")
 	r.Require(zvC18Required...)
 	if r.IsReplay() {
 		var c zvC18Case
